@@ -1,5 +1,7 @@
 import Driver.ReadCheck
 import SaModel.Lemmas.C18ReadAny
+import SaModel.Lemmas.C05ReadCont
+import SaModel.Spec.Blame
 /- suite `readann` (C18, reader half): error annotations of the random-access readers on the views and typed
 targets of the `read` suite and on the corrupted views of the `corrupt` suite.
 
@@ -8,7 +10,11 @@ agree   : the annotated reader model (`SaModel/Read/Annot.lean`, `AnnFixes.all`)
           gives the outcome of the un-annotated model (`Reader.readAs`) the C02 / C17 theorems are about.
 spec C18 (independent of the operational model): an error carries both keys, and (field, data_type) is one of the
           positions of the record's type (`segsArr`: the `$`-rooted walk over the view) with the label of the
-          reader family there. -/
+          reader family there; and — BLAME, the specification of `Props.C18.C18_de_blame` (Props/C18De.lean) — on every erroring typed read
+          whose slot decodes and meets the hypotheses of that theorem (reader built, physical lengths, UTF-8 strings,
+          neither known finding #23 / #24 inside the value: `noKnown`), (field, data_type) is one of the positions
+          `Spec.blameRead target view value` blames (written from `Read.cast`, not from the readers): signature
+          `C18/blame/…`.  Reads whose slot does not decode (corrupted views) or that meet a known finding: tag `blame-na`. -/
 namespace Driver.Suites.Readann
 open Lean Driver SaModel SaModel.Read SaModel.Props.C18
 
@@ -36,6 +42,24 @@ def modelAnn : R DVal → Option (Option String × Option String)
   | .error (.errCtx _ a) => some (a.lookup "field", a.lookup "data_type")
   | .error (.err _) => some (none, none)
   | _ => none
+
+/-- the positions `Spec.blameRead` allows for row `i`; `none`: a hypothesis of `C18_de_blame` fails -/
+def blameAt (rec_ : Arr) (ty : Target) (i : Nat) : Option (List (String × String)) :=
+  match Spec.decodeAt rec_ i with
+  | .ok lv =>
+    if utf8Ok lv && noKnown ty rec_ lv then some (positionsAt "$" (Spec.blameRead ty rec_ lv)) else none
+  | .error _ => none
+
+/-- `pass` / `fail` / `na` for one erroring read: a bulk read stops at the first failing row, so the named position
+must be blamed for some row -/
+def blameVerdict (rec_ : Arr) (r : ReadReq) (f d : String) : String × List (String × String) :=
+  if !((new Fixes.all rec_) == .ok () && physical rec_) then ("na", []) else
+  let rows := if r.bulk then List.range (vlen rec_) else [r.idx]
+  let per := rows.map (blameAt rec_ r.ty)
+  let allowed := (per.filterMap id).flatten
+  if allowed.contains (f, d) then ("pass", allowed)
+  else if per.any Option.isNone then ("na", allowed)
+  else ("fail", allowed)
 
 def handle (j : Json) : Except String Verdict := do
   if let some s := getOpt j "skip" then
@@ -103,6 +127,13 @@ def handle (j : Json) : Except String Verdict := do
           if sig == "" || sig.startsWith "C18/ann" then
             sig := s!"C18/position/{kind}/{targetKind r.ty}/{d}"
             why := s!"{what}: ({f}, {d}) is not a position of the record: {(toString allowed).take 300}"
+        let (bv, ballowed) := blameVerdict rec_ r f d
+        tags := s!"blame-{bv}" :: tags
+        if bv == "fail" then
+          c18 := "fail"
+          if sig == "" || sig.startsWith "C18/ann" then
+            sig := s!"C18/blame/{kind}/{targetKind r.ty}/{d}"
+            why := s!"{what}: ({f}, {d}) is not a position Spec.blameRead blames: {(toString ballowed).take 300}"
       | _, _ =>
         c18 := "fail"
         if sig == "" || sig.startsWith "C18/ann" then
